@@ -442,7 +442,7 @@ def encode(case):
 
 
 UNKNOWN = ['foo', 'bypass_everything', 'approved']
-ARGFORMS = ['', '=x', '=1', '=', '=a=b']
+ARGFORMS = ['', '=x', '=1', '=', '=a=b', '=false', '=False', '=0', '=OFF', '=True']   # incl. the values people give booleans
 AT_GAPS = [('@' + ROBOT, g) for g in (' ', '', ',', '/')] + [('@' + ROBOT + ':', g) for g in (' ', '', '/')]
 LEADS = ['', ' ', '\n\t', 'please ']
 TRAILS = ['', ' ', '\n', ' thanks', ',']
@@ -733,6 +733,8 @@ def run(ctx):
         ctx.notes.append('extracted model unavailable: correspondence and monitor not run')
         return
     t0 = time.time()
+    from lib import authoropts
+    authoropts.check(ctx)            # "... or is granted by per-author settings": several authors in one settings file
     opts, cmds = _prepare(ctx)
     words = opts + cmds + UNKNOWN
     escalate = bool(ctx.extra.get('regex_literals_changed'))
